@@ -197,6 +197,13 @@ def rule_adv(R):
              "the broker limit is only written by the handshake: None, or the CONNACK's Maximum Packet Size (found %s in %s)"
              % (show(t), b.fn_name), where=s["span"])
     R.floor("adv/limit-writer", n, 1, "stores to maximum_packet_size")
+    arms = roles.connack_property_arms(f)
+    a = arms.get("MaximumPacketSize")
+    ok = a is not None and a["unconditional"] and any(nm == "maximum_packet_size" and v[0] == "agg" and v[3] == "Some" and
+                                                      chain(v[5][0])[1][-2:] == ["@MaximumPacketSize", "0"] for nm, v in a["stores"])
+    R.ob("adv/limit-honoured", ok,
+         "whenever the CONNACK carries a Maximum Packet Size it becomes the broker limit, unconditionally and unmodified "
+         "(a limit that is dropped for some values lets oversize packets through)", where=a["span"] if a else hb.span)
 
 
 def rule_rx(R):
